@@ -224,6 +224,12 @@ func init() {
 		c.E.Covers[id]++
 		c.E.mu.Unlock()
 		if first {
+			if !modelCoherent(cm, c.S.pcTerms()) {
+				// the witness becomes a concrete scenario: it has to come from one coherent answer
+				if v, m, syms, _ := c.S.pf.CheckSyms(c.E.withEvals(c.S, c.S.pcTerms()), 4*c.E.Cfg.FeasMs, true); v == Sat {
+					cm = NewCachedModel(nil, m, syms)
+				}
+			}
 			sc := c.E.scenario(c.S, cm, id)
 			c.E.mu.Lock()
 			c.E.CoverModels[id] = sc
@@ -507,7 +513,7 @@ func (e *Engine) checkObligation(s *State, id string, cond *Term) {
 			}
 			who += "+slice"
 		}
-		if v == Sat && cm != nil && !modelSatisfies(cm, s.pcTerms()) {
+		if v == Sat && cm != nil && (!modelSatisfies(cm, s.pcTerms()) || !modelCoherent(cm, append(s.pcTerms(), neg))) {
 			cm = nil // the combined model does not extend to the whole path condition: ask in full
 		}
 		if v == Unknown || (v == Sat && cm == nil) {
